@@ -58,7 +58,8 @@ def _snap(cframe):
         fc = fl["cleaner"]
         cur = fl["curr_line"]
         ll = cur.current_logical_line
-        return (tuple(fc.state), bool(fc.verify_continue), tuple(cl.state), ll.category(), bool(cur.lines), _pclass(ll.parts[:2]), min(len(ll.parts), 3), bool(ll.trailing_space))
+        return ((tuple(fc.state), bool(fc.verify_continue), tuple(cl.state), ll.category(), bool(cur.lines), _pclass(ll.parts[:2]), min(len(ll.parts), 3), bool(ll.trailing_space)),
+                len(cur.lines))
     except Exception:  # noqa
         return None
 
@@ -229,14 +230,17 @@ def _expand(arg):
                 succ[L] = "VIOL"
                 fails.append("".join(path) + L + "\na\n")
                 continue
-        snap = r["snaps"][k] if len(r["snaps"]) > k else None
-        succ[L] = (snap, ref.key())
+        snap, pending = r["snaps"][k] if len(r["snaps"]) > k and r["snaps"][k] else (None, 0)
+        # part of the product state: how many lines the reference has counted that the implementation has neither emitted nor
+        # credited to its unfinished statement (0 when they agree) - two histories that differ in it have different futures
+        lag = len(ref.counted) - len(set(r["counted"]))      # the run ends with a flush of the unfinished statement: pending lines are in r["counted"]
+        succ[L] = (snap, ref.key(), lag)
     return path, succ, fails, trans, pruned, eofs
 
 
 def explore_s(maxlen, depth_cap=10):
     r0 = impl_run([], introspect=True)
-    init = (r0["snaps"][0] if r0["snaps"] else None, fscan.FScanner().key())
+    init = (r0["snaps"][0][0] if r0["snaps"] and r0["snaps"][0] else None, fscan.FScanner().key(), 0)
     states = {init}
     expanded = {}
     reps = {init: 1}
